@@ -1424,3 +1424,115 @@ func r027(c *Ctx, r *R) {
 		r.Check(ok && n > 0, "batchingstate:returns-commit-error", f.Pos(), "BatchingState.Commit returns exactly the datastore batch's Commit result", "BatchingState.Commit can return something other than the datastore batch's error (a constant nil, a shadowed result): the batch worker takes a failed commit for a success, resets its counter, leaves the age timer idle, and the accepted operations are never committed")
 	}
 }
+
+func init() {
+	register(&Rule{ID: "R16.6", Props: []string{"C16", "C05"}, Floor: 6, Title: "cancellation reaches the daemon: every request Connector.Pin, Unpin, pinProgress and pinUpdate send runs under a context derived from the caller's context parameter (the tracker's per-operation context), never under the connector's own long-lived context", Run: r166})
+}
+
+// ctxRoots follows a context value back through the deriving calls
+// (context.With*, trace.StartSpan, trace.NewContext, tag.New) and reports
+// where it ultimately comes from: "param:<i>", "field:<name>", "background"
+// or "?".
+func ctxRoots(f *ssa.Function, v ssa.Value, depth int, out map[string]bool) {
+	ctxRootsSeen(f, v, depth, out, map[ssa.Value]bool{})
+}
+
+func ctxRootsSeen(f *ssa.Function, v ssa.Value, depth int, out map[string]bool, seen map[ssa.Value]bool) {
+	if seen[v] {
+		return // a cycle through a variable re-assigned from itself (ctx, cancel := WithCancel(ctx))
+	}
+	seen[v] = true
+	if depth > 40 {
+		out["?"] = true
+		return
+	}
+	ctxRoots := func(f *ssa.Function, v ssa.Value, depth int, out map[string]bool) {
+		ctxRootsSeen(f, v, depth, out, seen)
+	}
+	switch x := v.(type) {
+	case *ssa.Parameter:
+		out[fmt.Sprintf("param:%d", paramIndex(f, x))] = true
+	case *ssa.FreeVar:
+		out["freevar:"+x.Name()] = true
+	case *ssa.Extract:
+		ctxRoots(f, x.Tuple, depth+1, out)
+	case *ssa.Phi:
+		for _, e := range x.Edges {
+			ctxRoots(f, e, depth+1, out)
+		}
+	case *ssa.ChangeInterface:
+		ctxRoots(f, x.X, depth+1, out)
+	case *ssa.MakeInterface:
+		ctxRoots(f, x.X, depth+1, out)
+	case *ssa.UnOp:
+		if fl, _ := fieldLoad(x); fl != nil {
+			out["field:"+fl.Name()] = true
+			return
+		}
+		if al, ok := x.X.(*ssa.Alloc); ok {
+			for _, st := range storesTo(al) {
+				ctxRoots(f, st.Val, depth+1, out)
+			}
+			return
+		}
+		if fv, ok := x.X.(*ssa.FreeVar); ok {
+			out["freevar:"+fv.Name()] = true
+			return
+		}
+		out["?"] = true
+	case *ssa.Call:
+		cn := callName(x.Common())
+		switch {
+		case nameMatches(cn, "=context.WithTimeout", "=context.WithCancel", "=context.WithDeadline", "=context.WithValue", "trace.StartSpan", "tag.New"):
+			ctxRoots(f, x.Common().Args[0], depth+1, out)
+		case nameMatches(cn, "trace.NewContext"):
+			ctxRoots(f, x.Common().Args[0], depth+1, out)
+		case nameMatches(cn, "=context.Background", "=context.TODO"):
+			out["background"] = true
+		default:
+			out["?:"+cn] = true
+		}
+	default:
+		out["?"] = true
+	}
+}
+
+func r166(c *Ctx, r *R) {
+	senders := []string{"ipfshttp.Connector).postCtx", "ipfshttp.Connector).doPostCtx", "ipfshttp.Connector).pinProgress", "ipfshttp.Connector).pinUpdate", "net/http.NewRequestWithContext", "net/http.Request).WithContext"}
+	for _, name := range []string{"Connector.Pin", "Connector.Unpin", "Connector.pinProgress", "Connector.pinUpdate"} {
+		f := c.fn(r, "ipfsconn/ipfshttp", name)
+		if f == nil {
+			continue
+		}
+		withAnon(f, func(g *ssa.Function) {
+			for _, ci := range findCalls(g, false, senders...) {
+				args := callArgs(ci.Common())
+				var ctxArg ssa.Value
+				for _, a := range args {
+					if a.Type().String() == "context.Context" {
+						ctxArg = a
+						break
+					}
+				}
+				if ctxArg == nil {
+					continue
+				}
+				roots := map[string]bool{}
+				ctxRoots(g, ctxArg, 0, roots)
+				var rs []string
+				ok := true
+				for k := range roots {
+					rs = append(rs, k)
+					// the caller's context: parameter 1 of the method, or
+					// (inside a closure) the captured ctx variable
+					if !(k == "param:1" && g == f) && !strings.HasPrefix(k, "freevar:ctx") {
+						ok = false
+					}
+				}
+				sort.Strings(rs)
+				key := fmt.Sprintf("%s:%s", name, shortName(ci.(*ssa.Call)))
+				r.Check(ok && len(rs) > 0, key, ci.Pos(), "the request context derives from the caller's context", fmt.Sprintf("%s sends a request under a context that does not derive (only) from the caller's context %v: cancelling the tracker's operation no longer aborts the request, so an unpin that overtakes a slow pin leaves the CID pinned with status unpinned", name, rs))
+			}
+		})
+	}
+}
